@@ -205,7 +205,7 @@ def check_c16(chk, args):
         if t not in COLOR._SYNTAX_TOKEN_TO_PYGMENTS_TOKEN:
             chk.violation('C16.token-table', 'syntax token %r has no style mapping' % (t,), {'token': str(t)})
     # model level
-    r = common.run_tlc('ColorMC', MC_CFG % (5 if q else 6), os.path.join(chk.workdir, 'mc'), workers=common.NCPU, heap='8g')
+    r = common.run_tlc('ColorMC', MC_CFG % (5 if q else 8), os.path.join(chk.workdir, 'mc'), workers=common.NCPU, heap='8g')
     chk.add_tlc(r)
     if r.invariant_violated:
         tail = '\n'.join(r.out.splitlines()[-30:])
